@@ -2,6 +2,8 @@
 #include <cstdio>
 #include <cstdlib>
 #include <string>
+#include <sys/personality.h>
+#include <unistd.h>
 
 // classify sanitizer hits: exit code 77, no leak sanitizer (leaks are found by exact allocator accounting)
 extern "C" __attribute__((used, visibility("default"))) const char *__asan_default_options()
@@ -16,6 +18,19 @@ extern "C" __attribute__((used, visibility("default"))) const char *__ubsan_defa
 int main(int argc, char **argv)
 {
 	setvbuf(stdout, nullptr, _IOLBF, 0);
+	// address-space randomisation off (inherited by every worker and replay child): a broken library may make results depend on
+	// pointer VALUES (bytes of an address parsed as text, address-ordered containers ...); with fixed layouts such a violation
+	// replays like any other.  Best effort: if the kernel or a sandbox refuses, carry on as before.
+	if (!getenv("JSIM_ASLR_OFF"))
+	{
+		int pers = personality(0xffffffff);
+		if (pers != -1 && !(pers & ADDR_NO_RANDOMIZE) && personality(pers | ADDR_NO_RANDOMIZE) != -1)
+		{
+			setenv("JSIM_ASLR_OFF", "1", 1);
+			execv("/proc/self/exe", argv);
+			// exec failed: continue in this process
+		}
+	}
 	{
 		const char *vd = getenv("VERIF_DIR");
 		std::string lp = std::string(vd && *vd ? vd : "/verif") + "/build/locale";
